@@ -6,6 +6,18 @@ package pipeline
 
 func init() {
 	vpRegister("c17_fullsource", vpH_c17_fullsource)
+	vpRegister("c17_dictionary", vpH_c17_dictionary)
+}
+
+// sources built from symbolic pieces and the code's own string constants
+// (suffixes, hosts, separators found in FullSource's current SSA)
+func vpH_c17_dictionary() {
+	s := vpStrUpTo(2, vpSrcClass) + vpStrConst("FullSource")
+	if vpParam("words") > 1 && vpBool() {
+		s += vpStrUpTo(1, vpSrcClass) + vpStrConst("FullSource")
+	}
+	s += vpStrUpTo(2, vpSrcClass)
+	vpCheckFullSource(s)
 }
 
 const vpSrcClass = "a-b0._/\\-#:@\\\\"
@@ -55,7 +67,10 @@ func vpFullSourceSpec(s string) (want string, ok bool) {
 }
 
 func vpH_c17_fullsource() {
-	s := vpStrUpTo(vpParam("len"), vpSrcClass)
+	vpCheckFullSource(vpStrUpTo(vpParam("len"), vpSrcClass))
+}
+
+func vpCheckFullSource(s string) {
 	want, ok := vpFullSourceSpec(s)
 	vpAssume(ok)
 	p := &Plugin{Source: s}
